@@ -237,7 +237,19 @@ func emitCoverSources(c *Ctx, w *LeanFile) error {
 }
 
 // emitSkipGuards: connection.go handleFrames — does each branch of the frame dispatch (STREAM, ACK,
-// DATAGRAM, everything else) contain `if skipHandling { continue }` before it handles the frame?
+// DATAGRAM, everything else) skip the handling of a frame once an earlier frame of the packet failed?
+//
+// Matched on the semantic shape, not on local names, statement positions or the dispatch syntax:
+//   - the "skip" variable is any variable X that is set by `X = true` inside an `if E != nil { … }`
+//     (E: the loop's error variable); in the unchanged tree X = skipHandling, E = handleErr;
+//   - the dispatch is either an if / else-if / else chain or a tagless `switch { case …: … default: … }`;
+//     a branch is identified by the frame-type predicate its condition calls (IsStreamFrameType,
+//     IsAckFrameType, IsDatagramFrameType); the final else / the default clause is "other";
+//   - a branch is guarded when `if X { continue }` comes before every statement that handles the frame
+//     (a call of a method named handle… / Handle…, or an assignment of a call result to E), or when all
+//     such statements sit inside `if !X { … }`.
+// A branch that genuinely lacks its guard is reported as guard = false (the proofs then fail); only a
+// dispatch that cannot be found at all is an extraction error.
 func emitSkipGuards(c *Ctx, w *LeanFile) error {
 	af, err := parser.ParseFile(c.Fset, filepath.Join(c.Repo, "connection.go"), nil, 0)
 	if err != nil {
@@ -252,63 +264,209 @@ func emitSkipGuards(c *Ctx, w *LeanFile) error {
 	if fd == nil {
 		return fmt.Errorf("handleFrames not found in connection.go")
 	}
-	guards := map[string]bool{}
-	seen := map[string]bool{}
-	hasGuard := func(b *ast.BlockStmt) bool {
-		for _, st := range b.List {
-			is, ok := st.(*ast.IfStmt)
+	unparen := func(e ast.Expr) ast.Expr {
+		for {
+			p, ok := e.(*ast.ParenExpr)
 			if !ok {
-				continue
+				return e
 			}
-			if id, ok := is.Cond.(*ast.Ident); !ok || id.Name != "skipHandling" {
-				continue
-			}
-			for _, bs := range is.Body.List {
-				if br, ok := bs.(*ast.BranchStmt); ok && br.Tok.String() == "continue" {
-					return true
-				}
-			}
+			e = p.X
 		}
-		return false
 	}
-	condName := func(e ast.Expr) string {
-		if call, ok := e.(*ast.CallExpr); ok {
-			if se, ok := call.Fun.(*ast.SelectorExpr); ok {
-				switch se.Sel.Name {
-				case "IsStreamFrameType":
-					return "stream"
-				case "IsAckFrameType":
-					return "ack"
-				case "IsDatagramFrameType":
-					return "datagram"
-				}
-			}
+	identName := func(e ast.Expr) string {
+		if id, ok := unparen(e).(*ast.Ident); ok {
+			return id.Name
 		}
 		return ""
 	}
+	// E != nil (either operand order)
+	errVarOfCond := func(e ast.Expr) string {
+		be, ok := unparen(e).(*ast.BinaryExpr)
+		if !ok || be.Op.String() != "!=" {
+			return ""
+		}
+		x, y := identName(be.X), identName(be.Y)
+		switch {
+		case y == "nil" && x != "" && x != "nil":
+			return x
+		case x == "nil" && y != "" && y != "nil":
+			return y
+		}
+		return ""
+	}
+	skipVars := map[string]bool{}
+	errVars := map[string]bool{}
 	ast.Inspect(fd.Body, func(n ast.Node) bool {
 		is, ok := n.(*ast.IfStmt)
-		if !ok || condName(is.Cond) != "stream" {
+		if !ok {
 			return true
 		}
-		for cur := is; cur != nil; {
-			name := condName(cur.Cond)
-			if name != "" {
-				seen[name] = true
-				guards[name] = hasGuard(cur.Body)
+		ev := errVarOfCond(is.Cond)
+		if ev == "" {
+			return true
+		}
+		for _, st := range is.Body.List {
+			as, ok := st.(*ast.AssignStmt)
+			if !ok || len(as.Lhs) != 1 || len(as.Rhs) != 1 || as.Tok.String() != "=" {
+				continue
 			}
-			switch e := cur.Else.(type) {
-			case *ast.IfStmt:
-				cur = e
-			case *ast.BlockStmt:
-				seen["other"] = true
-				guards["other"] = hasGuard(e)
-				cur = nil
-			default:
-				cur = nil
+			if x := identName(as.Lhs[0]); x != "" && identName(as.Rhs[0]) == "true" {
+				skipVars[x] = true
+				errVars[ev] = true
+			}
+		}
+		return true
+	})
+	// `if X { … continue … }` with X a skip variable
+	isGuard := func(st ast.Stmt) bool {
+		is, ok := st.(*ast.IfStmt)
+		if !ok || is.Init != nil || !skipVars[identName(is.Cond)] {
+			return false
+		}
+		for _, bs := range is.Body.List {
+			if br, ok := bs.(*ast.BranchStmt); ok && br.Tok.String() == "continue" && br.Label == nil {
+				return true
 			}
 		}
 		return false
+	}
+	// `if !X { … }` without else: its body only runs while nothing has failed
+	isNegatedBlock := func(st ast.Stmt) bool {
+		is, ok := st.(*ast.IfStmt)
+		if !ok || is.Init != nil || is.Else != nil {
+			return false
+		}
+		ue, ok := unparen(is.Cond).(*ast.UnaryExpr)
+		return ok && ue.Op.String() == "!" && skipVars[identName(ue.X)]
+	}
+	handles := func(st ast.Stmt) bool {
+		found := false
+		ast.Inspect(st, func(n ast.Node) bool {
+			switch x := n.(type) {
+			case *ast.CallExpr:
+				name := ""
+				switch f := x.Fun.(type) {
+				case *ast.SelectorExpr:
+					name = f.Sel.Name
+				case *ast.Ident:
+					name = f.Name
+				}
+				if strings.HasPrefix(name, "handle") || strings.HasPrefix(name, "Handle") {
+					found = true
+				}
+			case *ast.AssignStmt:
+				for i, l := range x.Lhs {
+					if errVars[identName(l)] && len(x.Rhs) > 0 {
+						r := x.Rhs[min(i, len(x.Rhs)-1)]
+						if _, isCall := unparen(r).(*ast.CallExpr); isCall {
+							found = true
+						}
+					}
+				}
+			}
+			return !found
+		})
+		return found
+	}
+	branchGuarded := func(list []ast.Stmt) bool {
+		guarded, sawGuard := false, false
+		for _, st := range list {
+			switch {
+			case isGuard(st):
+				guarded, sawGuard = true, true
+			case isNegatedBlock(st):
+				if handles(st) {
+					sawGuard = true
+				}
+			case !guarded && handles(st):
+				return false
+			}
+		}
+		return sawGuard
+	}
+	condNames := func(e ast.Expr) []string {
+		var out []string
+		if call, ok := unparen(e).(*ast.CallExpr); ok {
+			if se, ok := call.Fun.(*ast.SelectorExpr); ok {
+				switch se.Sel.Name {
+				case "IsStreamFrameType":
+					out = append(out, "stream")
+				case "IsAckFrameType":
+					out = append(out, "ack")
+				case "IsDatagramFrameType":
+					out = append(out, "datagram")
+				}
+			}
+		}
+		return out
+	}
+	guards := map[string]bool{}
+	seen := map[string]bool{}
+	record := func(name string, list []ast.Stmt) {
+		g := branchGuarded(list)
+		if seen[name] {
+			g = g && guards[name] // the same predicate dispatched twice: every occurrence needs the guard
+		}
+		seen[name] = true
+		guards[name] = g
+	}
+	ast.Inspect(fd.Body, func(n ast.Node) bool {
+		switch x := n.(type) {
+		case *ast.IfStmt:
+			if len(condNames(x.Cond)) == 0 {
+				return true
+			}
+			// head of an if / else-if / else chain on frame-type predicates
+			for cur := x; cur != nil; {
+				for _, name := range condNames(cur.Cond) {
+					record(name, cur.Body.List)
+				}
+				switch e := cur.Else.(type) {
+				case *ast.IfStmt:
+					cur = e
+				case *ast.BlockStmt:
+					record("other", e.List)
+					cur = nil
+				default:
+					cur = nil
+				}
+			}
+			return false
+		case *ast.SwitchStmt:
+			if x.Tag != nil || x.Body == nil {
+				return true
+			}
+			isDispatch := false
+			for _, cs := range x.Body.List {
+				if cc, ok := cs.(*ast.CaseClause); ok {
+					for _, e := range cc.List {
+						if len(condNames(e)) > 0 {
+							isDispatch = true
+						}
+					}
+				}
+			}
+			if !isDispatch {
+				return true
+			}
+			for _, cs := range x.Body.List {
+				cc, ok := cs.(*ast.CaseClause)
+				if !ok {
+					continue
+				}
+				if cc.List == nil {
+					record("other", cc.Body)
+					continue
+				}
+				for _, e := range cc.List {
+					for _, name := range condNames(e) {
+						record(name, cc.Body)
+					}
+				}
+			}
+			return false
+		}
+		return true
 	})
 	var rows []string
 	all := true
@@ -321,7 +479,7 @@ func emitSkipGuards(c *Ctx, w *LeanFile) error {
 		}
 		rows = append(rows, fmt.Sprintf("(%q, %v)", k, guards[k]))
 	}
-	w.P("/-- connection.go handleFrames: branch ↦ contains `if skipHandling { continue }` -/")
+	w.P("/-- connection.go handleFrames: branch ↦ the frame is not handled once an earlier frame of the packet failed (`if skipHandling { continue }` before the handler) -/")
 	w.P("def skipGuards : List (String × Bool) := [%s]", strings.Join(rows, ", "))
 	w.P("def allSkipGuards : Bool := %v", all)
 	return nil
